@@ -43,6 +43,7 @@ func checkBatch(c Case) (kind, what string) {
 		data []byte
 		want icc.Header
 		hex  string
+		p    *icc.Profile // the value handed out at the time; it must keep saying what it said
 	}
 	var items []item
 	for _, hx := range c.Batch {
@@ -55,7 +56,7 @@ func checkBatch(c Case) (kind, what string) {
 		data := profileWith(h)
 		p, err := icc.NewProfileReader(bytes.NewReader(data)).ReadProfile()
 		if err == nil {
-			items = append(items, item{data, p.Header, hx})
+			items = append(items, item{data, p.Header, hx, p})
 		}
 	}
 	// the same headers through ONE metadata value whose profile bytes are replaced each time: the parsed profile
@@ -112,6 +113,13 @@ func checkBatch(c Case) (kind, what string) {
 	}
 	close(start)
 	wg.Wait()
+	if kind == "" {
+		for _, it := range items {
+			if !reflect.DeepEqual(it.p.Header, it.want) {
+				return "earlier-result-changed", fmt.Sprintf("the profile returned for header %s said %+v when it was returned and says %+v after later profiles were parsed", it.hex, it.want, it.p.Header)
+			}
+		}
+	}
 	return kind, what
 }
 
@@ -422,6 +430,17 @@ func TestC16(t *testing.T) {
 				binary.BigEndian.PutUint16(h[32:], uint16(next()%60))
 				binary.BigEndian.PutUint16(h[34:], uint16(next()%60))
 				c.Batch = append(c.Batch, hex.EncodeToString(h[:]))
+				// a copy of the same profile with other flags / intent / attributes / creator (an embedded and a
+				// standalone copy share size and profile ID)
+				if next()%3 == 0 {
+					v := h
+					for k := 0; k < 1+int(next()%3); k++ {
+						off := []int{44, 47, 56, 63, 64, 67, 80, 40, 12}[next()%9]
+						v[off] ^= byte(1 << (next() % 8))
+					}
+					copy(v[36:], "acsp")
+					c.Batch = append(c.Batch, hex.EncodeToString(v[:]))
+				}
 			}
 			ev.Eval(1)
 			ev.NT(ev.Hash(c.Batch, c.Workers))
